@@ -236,11 +236,16 @@ fn run_history_registry(cx: &mut Cx, lang: &'static str, ops: &[Op]) {
                 m.recs.push((rid, t.clone(), *r));
             }
             Op::Clear => {
-                // the registry has no clear: destroy + create is what the wrapper does
-                destroy_store(id);
-                create_store(id, take_lang(lang));
-                set_limit(id, m.limit);
-                highlight_with(id, m.markers);
+                if m.recs.len() % 2 == 0 {
+                    // the registry has no clear of its own: destroy + create is what the wrapper does
+                    destroy_store(id);
+                    create_store(id, take_lang(lang));
+                    set_limit(id, m.limit);
+                    highlight_with(id, m.markers);
+                } else {
+                    // ... or the store is emptied in place through the registry's accessor
+                    using_store(id, |s| s.clear());
+                }
                 m.recs.clear();
             }
             Op::Limit(n) => {
@@ -378,7 +383,7 @@ fn random_op_inner(rng: &mut Rng, lang: &str, allow_clear: bool) -> Op {
     let pickw = |rng: &mut Rng| -> String { if rng.chance(1, 3) { gen::any_word(rng, lang) } else { rng.pick(&words).to_string() } };
     match rng.below(if allow_clear { 12 } else { 11 }) {
         0 | 1 | 2 | 3 => {
-            let t = format!("{} {}", pickw(rng), pickw(rng));
+            let t = if rng.chance(1, 12) { rng.pick(&["", " - ", "!!!", "'"]).to_string() } else { format!("{} {}", pickw(rng), pickw(rng)) };
             Op::Add(t, rng.below(5))
         }
         4 => Op::Limit(*rng.pick(&[0, 1, 2, 3, 5, 10, 65536])),
@@ -826,6 +831,14 @@ impl History {
                         model.insert(id, (St::new(idlang, DEFAULT_LIMIT, ("[", "]")), vec![]));
                     }
                 }
+                2 if exists && !via_bridge && cx.rng.chance(1, 4) => {
+                    // the store is emptied in place through the registry's accessor (the result buffer keeps the last hits)
+                    hist.push(format!("using_store({}, clear)", id));
+                    cx.ctx(format!("C20 lang={} history={:?}", lang, hist));
+                    using_store(id, |s| s.clear());
+                    model.get_mut(&id).unwrap().0.store.clear();
+                    cx.count("stores emptied in place through using_store");
+                }
                 2 => {
                     if exists && cx.rng.chance(1, 3) {
                         hist.push(format!("destroy({})", id));
@@ -1066,7 +1079,7 @@ impl Prop for History {
         match self.0 {
             Which::NoCrash => vec![("searches", 20000, 200000), ("searches with hits", 5000, 50000), ("joined-record hits (two spans from a one-word query)", 50, 500), ("non-ASCII queries", 2000, 20000), ("limit 0", 200, 2000), ("limit 65536", 200, 2000), ("histories with boundary-value record ids", 2000, 20000), ("long-text searches", 500, 5000), ("long-text searches with a query over 255 characters", 100, 1000), ("corpus-store searches", 300, 3000), ("long-text cases with a giant word or a 1000+ word title", 20, 200), ("soak searches on one store", 600000, 2500000), ("most searches on one store max ", 66000, 66000), ("soak stores with more than 2^16 records", 2, 8), ("adds re-using the id of an earlier record", 5000, 50000), ("registry: searches", 10000, 300000), ("registry: searches with hits", 1500, 45000), ("registry: limit changes", 5000, 150000), ("registry: readers that call back into the registry", 1500, 45000)],
             Which::NoStale => vec![("search after add following an earlier search", 2000, 20000), ("search after clear following an earlier search", 500, 5000), ("search after limit following an earlier search", 500, 5000), ("empty-query search after a mutation following an earlier search", 1000, 10000), ("exhaustive histories", 20000, 200000), ("histories on a crowded store", 2000, 20000), ("histories that clear and refill a crowded store", 2000, 20000), ("histories growing a store past 64/128/256/512 records with searches in between", 200, 5000), ("histories growing a store past 1024 records with searches in between", 60, 1500), ("soak searches on one store", 1000000, 4000000), ("search repeating the previous query after a mutation", 2000, 20000), ("operations on another store of the same thread inside a history", 3000, 30000), ("registry-driven searches compared with a fresh store", 5000, 50000), ("adds re-using the id of an earlier record", 3000, 30000), ("histories whose searches run on other threads than the adds (the store is moved there and back)", 1500, 15000), ("histories whose reference stores are built and searched on threads of their own", 3000, 30000), ("histories with a very long word next to a threshold match", 2000, 20000), ("histories with more than twenty fully tied records and a shrinking limit", 2000, 20000)],
-            Which::Registry => vec![("observations", 20000, 200000), ("observations with >= 2 live ids holding results", 2000, 20000), ("destroy", 300, 3000), ("searches", 3000, 30000), ("histories over 4-20 store ids", 1000, 10000), ("bursts of 45-120 records", 300, 3000), ("stores created with another language than their neighbours", 3000, 30000), ("searches repeating the text just sent to another id", 2000, 20000), ("histories whose result buffers are read only now and then", 5000, 50000), ("reads that add a record from inside the reader", 5000, 50000), ("searches repeated on the same id after a limit change", 5000, 50000)],
+            Which::Registry => vec![("observations", 20000, 200000), ("observations with >= 2 live ids holding results", 2000, 20000), ("destroy", 300, 3000), ("searches", 3000, 30000), ("histories over 4-20 store ids", 1000, 10000), ("bursts of 45-120 records", 300, 3000), ("stores created with another language than their neighbours", 3000, 30000), ("searches repeating the text just sent to another id", 2000, 20000), ("histories whose result buffers are read only now and then", 5000, 50000), ("reads that add a record from inside the reader", 5000, 50000), ("searches repeated on the same id after a limit change", 5000, 50000), ("stores emptied in place through using_store", 2000, 20000)],
         }
     }
     fn run(&self, cx: &mut Cx, stream: &str, idx: u64) {
